@@ -205,3 +205,8 @@ mod tests {
         );
     }
 }
+
+#[cfg(kani)]
+mod verif_kani {
+    include!(concat!(env!("REPE_VERIF_KANI"), "/websocket_limits.rs"));
+}
